@@ -52,11 +52,11 @@ fn ok_resp() -> RespSpec {
 
 fn action(kind: usize, blen: usize) -> Action {
     match kind % 5 {
-        0 => Action { as_reader: 0, read_total: 0, buf: 1, delay_ms: 0, fin: Finish::Respond(ok_resp()) },
-        1 => Action { as_reader: 0, read_total: 0, buf: 1, delay_ms: 0, fin: Finish::Drop },
-        2 => Action { as_reader: 1, read_total: std::cmp::min(blen, 3), buf: 2, delay_ms: 0, fin: Finish::Respond(ok_resp()) },
-        3 => Action { as_reader: 1, read_total: blen.saturating_add(1), buf: 4096, delay_ms: 0, fin: Finish::Respond(ok_resp()) },
-        _ => Action { as_reader: 1, read_total: blen.saturating_add(1), buf: 65536, delay_ms: 0, fin: Finish::Drop },
+        0 => Action { as_reader: 0, read_total: 0, buf: 1, delay_ms: 0, fin: Finish::Respond(ok_resp()), zero_read: false },
+        1 => Action { as_reader: 0, read_total: 0, buf: 1, delay_ms: 0, fin: Finish::Drop, zero_read: false },
+        2 => Action { as_reader: 1, read_total: std::cmp::min(blen, 3), buf: 2, delay_ms: 0, fin: Finish::Respond(ok_resp()), zero_read: false },
+        3 => Action { as_reader: 1, read_total: blen.saturating_add(1), buf: 4096, delay_ms: 0, fin: Finish::Respond(ok_resp()), zero_read: false },
+        _ => Action { as_reader: 1, read_total: blen.saturating_add(1), buf: 65536, delay_ms: 0, fin: Finish::Drop, zero_read: false },
     }
 }
 
